@@ -47,7 +47,7 @@ def run_tlc(module, cfg_path, scratch, workers=1, env=None, timeout=3600, extra=
         cmd = ["java", "-XX:+UseSerialGC", "-Xms256m", "-Xmx3g", "-XX:TieredStopAtLevel=4",
                "-XX:CICompilerCount=2", "-cp", JAR, "tlc2.TLC"]
     else:
-        cmd = ["java", "-XX:+UseParallelGC", f"-XX:ParallelGCThreads={min(workers, 8)}", "-Xmx12g",
+        cmd = ["java", "-XX:+UseParallelGC", f"-XX:ParallelGCThreads={min(workers, 8)}", "-Xmx24g",
                "-cp", JAR, "tlc2.TLC"]
     cmd += ["-workers", str(workers), "-metadir", meta, "-noGenerateSpecTE",
             "-config", cfg_path, *extra, module]
